@@ -244,6 +244,16 @@ func vSchedReplay(c *vCtx, prop string, scns []vScn, raw json.RawMessage) {
 		res := vsched.Run(vsched.Options{Prefix: cs.Choices, Horizon: scn.horizon}, root)
 		outcome, bad := judge(res)
 		c.note("replay outcome: %s | %s | now=%v", outcome, res.Summary(), res.Now)
+		if tf := os.Getenv("VERIF_TRACE"); tf != "" { // debugging aid: where the schedule deviates
+			var sb strings.Builder
+			fmt.Fprintf(&sb, "outcome: %s | %s | now=%v\n", outcome, res.Summary(), res.Now)
+			for i, p := range res.Points {
+				if p.Chosen != 0 {
+					fmt.Fprintf(&sb, "point %d: chosen %d of %d kind=%c preempt=%v early=%v\n", i, p.Chosen, p.N, p.Kind, p.Preempt, p.Early)
+				}
+			}
+			os.WriteFile(tf, []byte(sb.String()), 0o644)
+		}
 		for _, b := range bad {
 			c.violation(prop+"|"+b.sig+"|scn="+scn.name, fmt.Sprintf("scenario %s, schedule %v: %s", scn.name, res.Choices(), b.msg), cs)
 		}
